@@ -35,7 +35,8 @@ class ValueAdapter(Adapter):
         else:
             new_token = value_to_token(new_value)
 
-        if isinstance(old_node, ast.JoinedStr) and isinstance(new_value, str):
+        if isinstance(old_node, ast.JoinedStr):
+            # f-strings work like Is(f"..."), also if the new value is no string
             if not old_value == new_value:
                 warnings.warn_explicit(
                     f"inline-snapshot will be able to fix f-strings in the future.\nThe current string value is:\n   {new_value!r}",
